@@ -20,16 +20,23 @@ const FILL: u8 = 0x5A;
 fn kernel_unit(rep: &Report, a: u8, b: u8, strength: u8, horizontal: bool, per: usize) -> u64 {
     // 8 sub-images of 8192 patterns each keep the buffers below the allocator's mmap threshold
     let mut n = 0;
-    for part in 0..8usize {
-        n += kernel_part(rep, a, b, strength, horizontal, per, part * 8192, 8192);
+    let (parts, size) = if per == 1 { (64usize, 1024usize) } else { (8, 8192) };
+    for part in 0..parts {
+        n += kernel_part(rep, a, b, strength, horizontal, per, part * size, size);
     }
     n
 }
 
 fn kernel_part(rep: &Report, a: u8, b: u8, strength: u8, horizontal: bool, per: usize, first: usize, count: usize) -> u64 {
+    // per = 8: eight patterns per edge line (all vector lanes); per = 7: seven (all scalar);
+    // per = 1: "solo" - the image is 8 across, one pattern per edge line in lane (edge mod 8), the
+    // other seven lanes are flat (inactive), so a group-level decision in the vector kernel is
+    // driven by the one pattern alone
+    let solo = per == 1;
+    let across = if solo { 8 } else { per };
     let edges = (count + per - 1) / per;
     let along = 8 * edges + 2; // extent in the direction crossing the edges
-    let (w, h) = if horizontal { (per, along) } else { (along, per) };
+    let (w, h) = if horizontal { (across, along) } else { (along, across) };
     let mut img = vec![FILL; w * h];
     let mut expect = vec![FILL; w * h];
     let pat = |k: usize| -> [u8; 4] {
@@ -37,12 +44,14 @@ fn kernel_part(rep: &Report, a: u8, b: u8, strength: u8, horizontal: bool, per: 
         let k = (first + k) & 0xFFFF;
         [a, b, (k >> 8) as u8, k as u8]
     };
+    let lane_of = |e: usize, c: usize| if solo { e % 8 } else { c };
     for e in 0..edges {
         let base = 8 * (e + 1) - 2;
         for c in 0..per {
             let p = pat(e * per + c);
             let m = annex_j(p[0], p[1], p[2], p[3], strength);
-            let (i0, step) = if horizontal { (base * w + c, w) } else { (c * w + base, 1) };
+            let lane = lane_of(e, c);
+            let (i0, step) = if horizontal { (base * w + lane, w) } else { (lane * w + base, 1) };
             for i in 0..4 {
                 img[i0 + i * step] = p[i];
                 expect[i0 + i * step] = m[i];
@@ -61,7 +70,7 @@ fn kernel_part(rep: &Report, a: u8, b: u8, strength: u8, horizontal: bool, per: 
         rep.violation("C09/length", format!("output length {} for input {}", out.len(), img.len()), desc);
         return 0;
     }
-    let lane_kind = if per == 8 { "vector" } else { "scalar" };
+    let lane_kind = if solo { "vector-solo" } else if per == 8 { "vector" } else { "scalar" };
     let orient = if horizontal { "horizontal-edge" } else { "vertical-edge" };
     if out != expect {
         // locate the first difference and describe it as a pattern
@@ -69,12 +78,13 @@ fn kernel_part(rep: &Report, a: u8, b: u8, strength: u8, horizontal: bool, per: 
         let (r, c) = (i / w, i % w);
         let (acr, alo) = if horizontal { (c, r) } else { (r, c) };
         let e = (alo + 2) / 8;
-        if e >= 1 && e <= edges && alo >= 8 * e - 2 && alo <= 8 * e + 1 {
-            let p = pat((e - 1) * per + acr);
+        let in_pattern = e >= 1 && e <= edges && alo >= 8 * e - 2 && alo <= 8 * e + 1 && (!solo || acr == (e - 1) % 8);
+        if in_pattern {
+            let p = if solo { pat(e - 1) } else { pat((e - 1) * per + acr) };
             let base = 8 * e - 2;
             let got: Vec<u8> = (0..4).map(|k| if horizontal { out[(base + k) * w + acr] } else { out[acr * w + base + k] }).collect();
             // a tiny standalone image reproducing the pattern in the same kind of slot
-            let small = small_image(p, horizontal, per, acr);
+            let small = small_image(p, horizontal, across, acr);
             rep.violation(
                 &format!("C09/kernel-{lane_kind}-{orient}"),
                 format!("pattern (A,B,C,D)={:?} strength {strength} in a {lane_kind} slot of the {orient} pass -> {:?}, Annex J gives {:?}", p, got, annex_j(p[0], p[1], p[2], p[3], strength)),
@@ -176,8 +186,8 @@ pub fn run_c09(tier: Tier) -> Report {
     let mut units: Vec<(u8, u8, u8, bool, usize)> = vec![];
     for &s in &strengths {
         for horizontal in [true, false] {
-            for per in [8usize, 7] {
-                let full = tier.thorough() || (horizontal && per == 8 && s == full_strength);
+            for per in [8usize, 7, 1] {
+                let full = (tier.thorough() && (per != 1 || horizontal)) || (horizontal && per == 8 && s == full_strength);
                 if full {
                     for a in 0..=255u8 {
                         for b in 0..=255u8 {
@@ -219,9 +229,42 @@ pub fn run_c09(tier: Tier) -> Report {
     });
     rep.add_states(shapes.len() as u64 * 72);
     rep.add_nontrivial(shapes.iter().filter(|(w, h)| *w >= 10 || *h >= 10).count() as u64 * 72);
+    // call histories: the filter is a pure function; all sequences of three calls over an alphabet
+    // of (shape, strength, content) on one dedicated thread
+    {
+        let mut letters: Vec<(usize, usize, u8, Vec<u8>)> = vec![];
+        for &(w, h) in &[(16usize, 16usize), (16, 10), (10, 16), (9, 9), (24, 18)] {
+            for s in [1u8, 7, 12] {
+                for kind in [0usize, 5] {
+                    letters.push((w, h, s, geometry_content(kind, w, h, seed)));
+                }
+            }
+        }
+        let n = letters.len();
+        let rep_ref = &rep;
+        let letters_ref = &letters;
+        std::thread::scope(|sc| {
+            sc.spawn(move || {
+                crate::evidence::install_panic_hook();
+                for a in 0..n {
+                    for b in 0..n {
+                        for c in 0..n {
+                            for &k in &[a, b, c] {
+                                let l = &letters_ref[k];
+                                check_image(rep_ref, "C09", l.0, l.1, l.2, &l.3, "call-history", true);
+                            }
+                        }
+                    }
+                }
+            });
+        });
+        rep.add_transitions(3 * (n * n * n) as u64);
+        rep.add_states((n * n * n) as u64);
+        rep.extra("call_history_sequences", json!(n * n * n));
+    }
     rep.set_rule(&format!(
-        "kernel: (A,B,C,D) patterns x strengths 1..12 placed in images that isolate one pass ({} units of 65536 patterns; quick = all 2^32 for one strength (5 + VERIF_SEED mod 12) in the vector slot of the horizontal pass, 32x32 (A,B) lattice x all (C,D) for every strength, pass and slot; thorough = all 2^32 x 12 x both passes x vector and scalar slots); \
-         geometry: all widths 1..={maxw} x heights 0..={maxh} x 12 strengths x 6 contents {:?}; non-trivial = image with at least one filterable edge",
+        "kernel: (A,B,C,D) patterns x strengths 1..12 placed in images that isolate one pass ({} units of 65536 patterns; quick = all 2^32 for one strength (5 + VERIF_SEED mod 12) in the vector slot of the horizontal pass, 32x32 (A,B) lattice x all (C,D) for every strength, pass and slot kind (packed vector lanes, scalar remainder, alone in an otherwise flat vector group); thorough = all 2^32 x 12 x both passes x vector and scalar slots, and all 2^32 x 12 alone in an otherwise flat vector group of the horizontal pass); \
+         geometry: all widths 1..={maxw} x heights 0..={maxh} x 12 strengths x 6 contents {:?}; all sequences of three calls over 30 (shape, strength, content) letters on one thread (purity); non-trivial = image with at least one filterable edge",
         units.len(), GEOM_NAMES
     ));
     rep.sample(json!({"kernel": {"A": 10, "B": 10, "C": 9, "D": 10, "strength": 5, "expected": annex_j(10, 10, 9, 10, 5)}}));
